@@ -1,4 +1,5 @@
 import enum
+import inspect
 import json
 from typing import (
     IO,
@@ -81,6 +82,17 @@ Self = TypeVar("Self", bound="AsyncBaseClientOpenTelemetry")
 GRAPHQL_TRANSPORT_WS = "graphql-transport-ws"
 # returned by _handle_ws_message when the server completed the subscription
 _WS_COMPLETE: Dict[str, Any] = {}
+
+
+def _ws_headers_keyword() -> str:
+    """websockets 14 renamed connect's ``extra_headers`` to ``additional_headers``."""
+    try:
+        parameters = inspect.signature(ws_connect).parameters
+    except (TypeError, ValueError):
+        return "extra_headers"
+    if "additional_headers" in parameters:
+        return "additional_headers"
+    return "extra_headers"
 
 
 class GraphQLTransportWSMessageType(str, enum.Enum):
@@ -373,7 +385,8 @@ class AsyncBaseClientOpenTelemetry:
 
         merged_kwargs: Dict[str, Any] = {"origin": self.ws_origin}
         merged_kwargs.update(kwargs)
-        merged_kwargs["extra_headers"] = headers
+        merged_kwargs.pop("extra_headers", None)
+        merged_kwargs[_ws_headers_keyword()] = headers
 
         operation_id = str(uuid4())
         async with ws_connect(
@@ -578,7 +591,8 @@ class AsyncBaseClientOpenTelemetry:
 
             merged_kwargs: Dict[str, Any] = {"origin": self.ws_origin}
             merged_kwargs.update(kwargs)
-            merged_kwargs["extra_headers"] = headers
+            merged_kwargs.pop("extra_headers", None)
+            merged_kwargs[_ws_headers_keyword()] = headers
 
             operation_id = str(uuid4())
             async with ws_connect(
